@@ -64,7 +64,7 @@ private:
   {
     size_t piv_length = piv.size();
     if (piv_length != A.size())
-      X.clean();
+      X.clear();
 
     X.resize(piv_length);
 
@@ -379,9 +379,9 @@ public:
   {
     /* Dimensions: A is mxn, X is nxk, B is mxk */
 
-    if (b.dim1() != m)
+    if (b.size() != m)
     {
-      throw BadIntegerException("Wrong dimension in LU::solve", b.dim1());
+      throw BadIntegerException("Wrong dimension in LU::solve", static_cast<int>(b.size()));
     }
 
     Real minD = NumTools::abs<Real>(LU(0, 0));
